@@ -2,6 +2,9 @@
    Quantification: every phase ring R (u = e^{i pi/16}, z_j = e^{i theta_j/4} arbitrary units) = every value of
    every gate parameter; Gen.Gates is regenerated from operations/gates.py + gateclass.py on every run. *)
 From QV Require Import Found.Base Found.KS Found.KSProofs Found.Sym Found.SymProofs Gen.Gates Spec.GateSpec Proofs.C09.
+From Coq Require Import Reals.
+From Coquelicot Require Import Coquelicot.
+From QV Require Import Found.Conj Found.CInst Proofs.C09R.
 
 (* the name-dispatch of a generic Gate object yields the documented matrix *)
 Theorem lib_dispatch_is_documented : forall (R : PhaseRing) name m, In (name, m) dispatch ->
@@ -34,6 +37,29 @@ Print Assumptions lib_unitary_symbolic.
 Theorem lib_names_covered : chk_cover = true /\ chk_phase = true.
 Proof. exact (conj chk_cover_true chk_phase_true). Qed.
 Print Assumptions lib_names_covered.
+
+(* ---- the same over the complex numbers: th assigns an arbitrary REAL value to every gate parameter; mden is the
+   complex matrix denoted by the (translated / documented) expression with real cos, sin, exp, sqrt ---- *)
+Theorem lib_dispatch_is_documented_real : forall (th : nat -> R) name m, In (name, m) dispatch ->
+  exists ar s, assoc name spec = Some (ar, s) /\ mdim m = mdim s /\
+    forall i j, (i < mdim m)%nat -> (j < mdim m)%nat -> mden th m i j = mden th s i j.
+Proof. exact dispatch_doc_real. Qed.
+Print Assumptions lib_dispatch_is_documented_real.
+
+Theorem lib_class_is_documented_real : forall (th : nat -> R) name cls m, In (name, cls) class_map ->
+  assoc cls class_mat = Some m ->
+  exists ar s, assoc name spec = Some (ar, s) /\ mdim m = mdim s /\
+    forall i j, (i < mdim m)%nat -> (j < mdim m)%nat -> mden th m i j = mden th s i j.
+Proof. exact class_doc_real. Qed.
+Print Assumptions lib_class_is_documented_real.
+
+(* every documented matrix has orthonormal rows, for every real parameter value *)
+Theorem lib_unitary_real : forall (th : nat -> R) name ar s, assoc name spec = Some (ar, s) ->
+  forall i j, (i < mdim s)%nat -> (j < mdim s)%nat ->
+  @ksum Cops (map (fun k => Cmult (mden th s i k) (Cconj (mden th s j k))) (seq 0 (mdim s)))
+  = if Nat.eqb i j then RtoC 1 else RtoC 0.
+Proof. exact spec_unitary_real. Qed.
+Print Assumptions lib_unitary_real.
 
 (* non-vacuity: the tables are not empty and RX is in all of them *)
 Example dispatch_has_rx : exists m, In ("RX"%string, m) dispatch /\ mok m = true.
